@@ -148,10 +148,19 @@ Lemma w_nofrag_left_out :
   served_ids (discover stored enc0 dec0 mode_scan (w_mpds [(false, w_a48)] [(false, w_v_nofrag)]) (fun _ _ => CAbsent)) = [].
 Proof. vm_compute. reflexivity. Qed.
 
-(** An MPD without a type attribute (mpd.Type == nil): loadAsset dereferences it, the start-up panics. *)
+(** An MPD without a type attribute is static by default and is loaded (b6dd4d1; before, loadAsset
+    dereferenced the nil mpd.Type and the start-up panicked). *)
 Definition w_l6 : mpd_list :=
   [("nt", "Manifest.mpd", MNoType [ {| as_has_template := true; as_ctype := "video"; as_reps := [(false, w_v300)] |} ])].
-Lemma w_no_type_panics :
-  match discover stored enc0 dec0 mode_scan w_l6 (fun _ _ => CAbsent) with Panic s => s | _ => "" end
+Lemma w_no_type_served :
+  served_ids (discover stored enc0 dec0 mode_scan w_l6 (fun _ _ => CAbsent))
+  = [("nt", ["Manifest.mpd"], ["V300"], Some "V300", 8000)].
+Proof. vm_compute. reflexivity. Qed.
+
+(** An MPD without mediaPresentationDuration: loadAsset calls String() on the nil duration, the start-up panics. *)
+Definition w_l7 : mpd_list :=
+  [("nd", "Manifest.mpd", MNoDur [ {| as_has_template := true; as_ctype := "video"; as_reps := [(false, w_v300)] |} ])].
+Lemma w_no_duration_panics :
+  match discover stored enc0 dec0 mode_scan w_l7 (fun _ _ => CAbsent) with Panic s => s | _ => "" end
   = "loadAsset: invalid memory address or nil pointer dereference".
 Proof. vm_compute. reflexivity. Qed.
